@@ -257,6 +257,35 @@ def judge_checkpoints(ctx: common.Ctx, res: List[dict], side: str):
     return nbad
 
 
+def judge_tvgbuild(ctx: common.Ctx, res: List[dict], stream: str = 'G-tvgbuild') -> int:
+    """Layer G, function level: the graph the real `create_variant_graph` built (dumped by the
+    stage wrapper) against the graph of the Lean model `Tvg.createVariantGraph` on the same
+    transcript and records, both in canonical form (structural equality up to node renaming).
+    INTERNAL stream: a diff is a broken correspondence (model and code disagree), not a
+    violation; the end-to-end differential on the same input is the failing-input search."""
+    cases = []
+    for r in res:
+        tb = r.get('tvgbuild')
+        if tb:
+            cases.append((tb[0], tb[1], r))
+        elif r.get('stats', {}).get('tvgbuild_skipped_not_small_records'):
+            ctx.count(stream, 'skipped_not_only_small_records')
+    if not cases:
+        return 0
+
+    def nontrivial(real: str) -> bool:
+        return ':v' in real
+
+    nd = ctx.diff_stream(stream, cases, False, describe, nontrivial,
+                         'create_variant_graph: real graph differs from the function-level model')
+    ctx.count(stream, 'compared', len(cases))
+    ctx.count(stream, 'with_frameshift_bridge',
+              sum(1 for _l, real, _r in cases
+                  if any(e.endswith(':e') and e.split('>')[0][0] != e.split('>')[1][0]
+                         for e in real.split('|E=')[1].split(';') if e)))
+    return nd
+
+
 def describe(r: dict) -> dict:
     d = dict(r.get('desc', {}))
     d.pop('tx_seq', None)
